@@ -290,3 +290,41 @@ Example c02_calc_nonvacuous :
   /\ obs_world 3 (run (firstn 18 ex_ops)) = [45; 25; -1]
   /\ obs_world 3 (run ex_ops) = [50; 20; -1].
 Proof. vm_compute. repeat split; reflexivity. Qed.
+
+(* two levels, as refreshRuntimeNoLock composes them top-down: the runtime the parent's calculator
+   reports for child c becomes the total of c's own calculator; the grandchild's report is the
+   from-scratch division with c's from-scratch share — for any two histories *)
+Theorem c02_calc_two_level : forall opsP opsC c g qc qg,
+  tab_find c (w_tab (run opsP)) = Some qc ->
+  tab_find g (w_tab (run (opsC ++ [OSetTotal (q_runtime qc)]))) = Some qg ->
+  exists rc,
+    runtime_of c (redistribution (cu_total (cur_of opsP)) (nodes_of (cu_figs (cur_of opsP)))) = Some rc
+    /\ runtime_of g (redistribution rc (nodes_of (cu_figs (cur_of opsC)))) = Some (q_runtime qg).
+Proof. exact calc_two_level. Qed.
+Print Assumptions c02_calc_two_level.
+
+(* ======================================================================================== *)
+(* Stream "manager": GroupQuotaManager feeding the calculators of a multi-level tree         *)
+(* (Mgr_Model.v, transcribed; Mgr_Spec.v, requests recomputed from scratch from the history). *)
+(* Regression witness of the defect repaired by cf84410 (doUpdateOneGroupMinQuotaNoLock       *)
+(* changed a non-lending quota's Request = max(childRequest, min) but pushed only the min to  *)
+(* the parent's calculator; findings/C02-stale-request-after-min-update.md): total 100; q1    *)
+(* not lending, min 20, one pod of 1; q2 lending, asks 100; q1.min := 5                       *)
+(* (corpus/C02/manager/f1-stale-request-after-min-update.case).                               *)
+(* ======================================================================================== *)
+From Verif Require Import C02.Mgr_Model C02.Mgr_Spec.
+
+Definition mgr_witness : list Z :=
+  [2; 6;  3;0;100;0;0;0;0;  0;1;0;0;100;20;0;  0;2;0;2;100;0;0;  2;1;0;1;0;0;0;  2;2;0;100;0;0;0;
+          0;1;0;0;100;5;0].
+
+Theorem c02_mgr_min_update_regression :
+  (* the code as it is reports 5 / 95 and passes the decision procedure ... *)
+  skipn 10 (mgr_run_case mgr_witness) = [5; 95]
+  /\ mgr_prop_case mgr_witness (mgr_run_case mgr_witness) = 0
+  (* ... the code before the repair reported 20 / 80, above max(request 5, min 5) of q1: clause 41 *)
+  /\ skipn 10 (mrun_obs false (fst (mgr_decode mgr_witness)) mgr0 (snd (mgr_decode mgr_witness))) = [20; 80]
+  /\ mgr_prop_case mgr_witness
+       (mrun_obs false (fst (mgr_decode mgr_witness)) mgr0 (snd (mgr_decode mgr_witness))) = 41.
+Proof. vm_compute. repeat split; reflexivity. Qed.
+Print Assumptions c02_mgr_min_update_regression.
